@@ -47,9 +47,11 @@ def load_skr(
 def response_from_xml(xml: str) -> Response:
     """Top-level function to parse a KSR XML document into a Request instance."""
     data = parse_ksr(xml)
-    bundles = responsebundles_from_list_of_dicts(
-        data["KSR"]["value"]["Response"]["ResponseBundle"]
-    )
+    bundles_list = data["KSR"]["value"]["Response"]["ResponseBundle"]
+    if not isinstance(bundles_list, list):
+        # handle a single ResponseBundle in the response
+        bundles_list = [bundles_list]
+    bundles = responsebundles_from_list_of_dicts(bundles_list)
     ksk_policy = signature_policy_from_dict(
         data["KSR"]["value"]["Response"]["ResponsePolicy"]["KSK"]
     )
